@@ -2,6 +2,21 @@
 from vlib.checks import loops
 
 
+def heap(ctx):
+    """the timer heap of include/tlist.h: exhaustive model check of the transcription (heap order, head = minimum over all
+    add/delete/pop histories) and replay of model histories on the real header, array compared entry by entry"""
+    q = ctx.quick
+    exe = ctx.cc("h_tlist.c", "asan")
+    r = ctx.model_check("TimerHeapMC.tla", "TimerHeapMC.cfg", workers=4, timeout=900)
+    ctx.check_vacuity(r, ["Add", "Next", "Pop"])
+    hs = ctx.generate("TimerHeapGen.tla", "TimerHeapGen.cfg", mode="bfs", workers=4, consts={"DEPTH": 5 if q else 6}, tag="heap-x")
+    hs += ctx.generate("TimerHeapGen.tla", "TimerHeapGen.cfg", mode="simulate", workers=4, num=1500 if q else 20000, depth=42,
+                       consts={"DEPTH": 40}, tag="heap-s")
+    ctx.sample({"heap_history": [" ".join(map(str, op)) for op in hs[-1]][:20]})
+    ctx.exec_validate(exe, hs, lambda h: [" ".join(map(str, op)) for op in h], "TimerHeapTrace.tla", "TimerHeapTrace.cfg", label="c09-heap")
+
+
 def run(ctx):
+    heap(ctx)
     loops.model(ctx)
     loops.run_profiles(ctx, ["c09", "c09big"], 2500, 15000, "c09")
